@@ -1,5 +1,5 @@
 (* C16 - Cargo features only add members; they never change the wire format of the rest. *)
-From Ctap Require Import Base Schema Typed WellTyped Inst Tables Limits Extends SerP RoundTripP MonoP LiftP ObEnvRt Deps ObDeps.
+From Ctap Require Import Base Schema Typed WellTyped Inst Tables Limits Extends SerP RoundTripP MonoP LiftP ObEnvRt Deps ObDeps FnShapes Shapes ObShapeRequest ObShapeStrings ObShapeFilters ObShapeResponse.
 Local Open Scope string_scope.
 Local Open Scope Z_scope.
 
@@ -113,6 +113,16 @@ Proof. reflexivity. Qed.
 Theorem c16_modelled_dependencies_pinned : deps_hold lock_versions cargo_deps = true.
 Proof. exact generated_deps. Qed.
 
+(* further hand-modelled functions this property rests on *)
+Theorem c16_modelled_functions_unchanged_request : shapes_hold fn_shapes shapes_request = true.
+Proof. exact generated_shapes_request. Qed.
+Theorem c16_modelled_functions_unchanged_strings : shapes_hold fn_shapes shapes_strings = true.
+Proof. exact generated_shapes_strings. Qed.
+Theorem c16_modelled_functions_unchanged_filters : shapes_hold fn_shapes shapes_filters = true.
+Proof. exact generated_shapes_filters. Qed.
+Theorem c16_modelled_functions_unchanged_response : shapes_hold fn_shapes shapes_response = true.
+Proof. exact generated_shapes_response. Qed.
+
 Eval vm_compute in "ASSUMPTIONS c16_generated_extends". Print Assumptions c16_generated_extends.
 Eval vm_compute in "ASSUMPTIONS c16_spec_extends". Print Assumptions c16_spec_extends.
 Eval vm_compute in "ASSUMPTIONS c16_std_arbitrary_irrelevant". Print Assumptions c16_std_arbitrary_irrelevant.
@@ -125,3 +135,7 @@ Eval vm_compute in "ASSUMPTIONS c16_lift_record". Print Assumptions c16_lift_rec
 Eval vm_compute in "ASSUMPTIONS c16_lift_identity". Print Assumptions c16_lift_identity.
 Eval vm_compute in "ASSUMPTIONS c16_generated_params_plain". Print Assumptions c16_generated_params_plain.
 Eval vm_compute in "ASSUMPTIONS c16_modelled_dependencies_pinned". Print Assumptions c16_modelled_dependencies_pinned.
+Eval vm_compute in "ASSUMPTIONS c16_modelled_functions_unchanged_request". Print Assumptions c16_modelled_functions_unchanged_request.
+Eval vm_compute in "ASSUMPTIONS c16_modelled_functions_unchanged_strings". Print Assumptions c16_modelled_functions_unchanged_strings.
+Eval vm_compute in "ASSUMPTIONS c16_modelled_functions_unchanged_filters". Print Assumptions c16_modelled_functions_unchanged_filters.
+Eval vm_compute in "ASSUMPTIONS c16_modelled_functions_unchanged_response". Print Assumptions c16_modelled_functions_unchanged_response.
